@@ -6,6 +6,7 @@ import (
 	"go/token"
 	"go/types"
 	"sort"
+	"strconv"
 	"strings"
 
 	"golang.org/x/tools/go/packages"
@@ -474,7 +475,7 @@ func readerTable(w *core.World) (map[string]*readerCase, *core.FuncInfo) {
 }
 
 func checkC08(r *core.Run) {
-	r.Explain = "Decided statically by table extraction and constant evaluation: (C08.codes) every JDBC code the image builder can emit (MySQLStrToJavaType ∘ MySQLCodeToJava over its type strings, minus JDBCTypeOther) has a case in ColumnImage.UnmarshalJSON; (C08.kinds) per type string the Go kind produced by the row scanner, the JSON shape encoding/json gives it (time.Time special-cased by MarshalJSON) and what the reader's case asserts and undoes agree: no assertion on a dynamic type encoding/json never produces, no reader transform without its inverse on the writer side or vice versa, no 64-bit integer decoded through float64; (C08.pair) Compress is reached from the flush path iff Decompress is reached from the undo path, under the same context key constant; the serializer name is written and read under one key; every UndoLogParser.Decode restores kinds by type code; (C08.registry) each compressor's GetCompressorType equals the case label returning it, unknown spellings map to the identity compressor; (C08.nopanic) the parser used on the decode path is assigned on every path before its Decode is called. (C08.pure) compressors, serializers and the column (un)marshalling consult no package-level state that request paths mutate — an output buffer taken from a pool and put back while its bytes are still referenced belongs here; (C08.stream) in every Compressor implementation a stream writer wrapped around the output buffer is closed (not merely deferred) before the buffer's bytes are taken, and Compress returns its input unchanged on some path only if Decompress returns its input unchanged on every path. NOT decided: the actual value round trip, the compression libraries, thresholds."
+	r.Explain = "Decided statically by table extraction and constant evaluation: (C08.codes) every JDBC code the image builder can emit (MySQLStrToJavaType ∘ MySQLCodeToJava over its type strings, minus JDBCTypeOther) has a case in ColumnImage.UnmarshalJSON; (C08.kinds) per type string the Go kind produced by the row scanner, the JSON shape encoding/json gives it (time.Time special-cased by MarshalJSON) and what the reader's case asserts and undoes agree: no assertion on a dynamic type encoding/json never produces, no reader transform without its inverse on the writer side or vice versa, no 64-bit integer decoded through float64; every layout the writer formats a time.Time with has a zone designator (the reader parses with one of the writer's layouts); (C08.pair) Compress is reached from the flush path iff Decompress is reached from the undo path, under the same context key constant; the serializer name is written and read under one key; every UndoLogParser.Decode restores kinds by type code; (C08.registry) each compressor's GetCompressorType equals the case label returning it, unknown spellings map to the identity compressor; (C08.nopanic) the parser used on the decode path is assigned on every path before its Decode is called. (C08.pure) compressors, serializers and the column (un)marshalling consult no package-level state that request paths mutate — an output buffer taken from a pool and put back while its bytes are still referenced belongs here; (C08.stream) in every Compressor implementation a stream writer wrapped around the output buffer is closed (not merely deferred) before the buffer's bytes are taken, and Compress returns its input unchanged on some path only if Decompress returns its input unchanged on every path. NOT decided: the actual value round trip, the compression libraries, thresholds."
 	r.Trusted = []string{"go/types", "encoding/json's mapping of Go kinds to JSON and back into interface{} (bool, float64, string, []interface{}, map[string]interface{})", "compression libraries"}
 	w := r.W
 	jd, ok := jdbcOf(w)
@@ -488,6 +489,7 @@ func checkC08(r *core.Run) {
 	r.Fn(sfn)
 	// the MarshalJSON special case for time.Time and its layout
 	writerTimeLayout := ""
+	writerLayouts := map[string]string{} // constant name -> layout text (one per column kind the writer tells apart)
 	if mfn := methodInfo(w, w.NamedType("pkg/datasource/sql/types", "ColumnImage"), "MarshalJSON"); mfn != nil {
 		r.Fn(mfn)
 		for _, g := range withCallees(w, mfn, 2) {
@@ -496,6 +498,7 @@ func checkC08(r *core.Run) {
 					if f := core.Callee(mfn.Pkg.TypesInfo, c); f != nil && f.Name() == "Format" && core.RecvNamed(f) != nil && core.RecvNamed(f).Obj().Name() == "Time" && len(c.Args) == 1 {
 						if k := core.ConstObj(mfn.Pkg.TypesInfo, c.Args[0]); k != nil {
 							writerTimeLayout = k.Name()
+							writerLayouts[k.Name()] = constant.StringVal(k.Val())
 						}
 					}
 				}
@@ -654,7 +657,18 @@ func checkC08(r *core.Run) {
 					r.Check(inSet("float64", rc.asserts...) || rc.passthru, "C08.kinds", kk+" : reader expects a JSON number", pos, "number read via float64", "a number is written but the reader asserts "+strings.Join(rc.asserts, ","))
 				}
 			case "time-string":
-				r.Check(rc.timeParse != "" && rc.timeParse == writerTimeLayout, "C08.kinds", kk+" : time layout agrees", pos, "written and parsed with "+writerTimeLayout, "time values are written with layout "+writerTimeLayout+" but read with '"+rc.timeParse+"'")
+				_, written := writerLayouts[rc.timeParse]
+				r.Check(rc.timeParse != "" && (rc.timeParse == writerTimeLayout || written), "C08.kinds", kk+" : time layout agrees", pos, "written and parsed with "+writerTimeLayout, "time values are written with layout "+writerTimeLayout+" but read with '"+rc.timeParse+"'")
+				// a time.Time names an instant and a location; a layout without a zone designator writes the wall
+				// clock only and time.Parse reads it back as UTC: another instant unless the connection runs in UTC
+				zoneless := ""
+				for name, text := range writerLayouts {
+					if !strings.Contains(text, "Z07") && !strings.Contains(text, "-07") && !strings.Contains(text, "MST") {
+						zoneless = name + " = " + strconv.Quote(text)
+					}
+				}
+				r.Check(zoneless == "", "C08.kinds", kk+" : the written time keeps its zone offset", pos, "every layout the writer uses has a zone designator",
+					"the layout "+zoneless+" has no zone designator: a value read with a connection location other than UTC is restored as midnight / the same wall clock in UTC — another instant, which the rollback's comparison takes for a foreign write (or writes back shifted)")
 			case "bool":
 				r.Check(rc.passthru || inSet("bool", rc.asserts...), "C08.kinds", kk+" : bool", pos, "bool read as bool", "bool mismatch")
 			default:
